@@ -32,6 +32,10 @@ def run(ctx):
     else:
         scenes = solids.make_scenes(ctx.seed + 19, 800, 100, 100, grid_n=3)
         nshard, nrays = 10, 40
+    # non-default tolerances whose relative and absolute members DIFFER (length scale != 1), on a third of the inputs
+    for i, sc in enumerate(scenes):
+        if i % 3 == 1:
+            sc["length"] = [2, 0.5, 10][(i // 3) % 3]
     inv = solids.involute_scene(len(scenes))
     inv["id"] = len(scenes)
     scenes.append(inv)
@@ -44,6 +48,9 @@ def run(ctx):
             for a in more:
                 a["name"] = "s%d_%s" % (k, a["name"])
             arrays += more
+    for i, a in enumerate(arrays):
+        if i % 4 == 2:
+            a["tol"] = [[1e-6, 3e-6], [1e-7, 2.5e-8], [1e-5, 1e-4]][(i // 4) % 3]        # [rel, abs]
     by_name.update({a["name"]: a for a in arrays})
 
     shards = [scenes[i::nshard] + arrays[i::nshard] for i in range(nshard)]
@@ -136,6 +143,8 @@ def run(ctx):
                 "disagreements_checked = projected fields compared (bit patterns for doubles) + ray trace items "
                 "(volume labels and distance bit tokens) compared; every input is distinct (fixture files / seeded scenes)",
         "inputs": total.get("inputs", 0), "fixtures": len(fixtures), "generated": len(scenes),
+        "inputs_with_rel_ne_abs_tolerance": sum(1 for sc in scenes if sc.get("length", 1) != 1)
+                                            + sum(1 for a in arrays if "tol" in a),
         "hand_built_rect_arrays": len(arrays),
         "fields_compared": total.get("fields", 0), "rays": total.get("rays", 0),
         "ray_items_compared": total.get("ray_items", 0), "ray_segments": total.get("segments", 0),
